@@ -140,6 +140,23 @@ def _run(case):
         for P in (True, False):
             mm, key = _build(case)
             evals += 1
+            if opt_configured and 512 <= L <= 65535 and mm.payload != L:
+                # the limit may also come from the message: max_size=0 means "what the peer said it
+                # can take" (request_payload), not what this side advertises (payload)
+                m0, _ = _build(case)
+                m0.request_payload = L
+                try:
+                    w0 = m0.to_wire(max_size=0, prefer_truncation=P, want_shuffle=False)
+                except dns.exception.TooBig:
+                    w0 = None
+                try:
+                    wx = mm.to_wire(max_size=L, prefer_truncation=P, want_shuffle=False)
+                except dns.exception.TooBig:
+                    wx = None
+                if (w0 is None) != (wx is None) or (w0 is not None and len(w0) != len(wx)):
+                    raise Violation("limit", f"request_payload {L} (advertised payload {mm.payload}), max_size=0, prefer_truncation={P}: {'TooBig' if w0 is None else str(len(w0)) + ' octets'}; with max_size={L}: {'TooBig' if wx is None else str(len(wx)) + ' octets'}", "request-payload-limit")
+                classes.add("limit-from-request-payload")
+                mm, key = _build(case)
             try:
                 w = mm.to_wire(max_size=L, prefer_truncation=P, want_shuffle=False)
             except dns.exception.TooBig:
@@ -306,7 +323,7 @@ def parts(tier):
     return [
         Part("limits", run, strategy=cases(sweep=(tier == "thorough")),
              n={"quick": 480, "thorough": 16 * 300},
-             require={"partial-inclusion": 80, "tc-set": 40, "dropped-only-additional": 20, "padded": 50,
+             require={"partial-inclusion": 80, "limit-from-request-payload": 80, "tc-set": 40, "dropped-only-additional": 20, "padded": 50,
                       "padded+tsig": 15, "block-sweep+tsig": 100, "tsig-other-data": 40, "tsig": 50, "toobig": 80, "limit<512": 50},
              shards={"quick": 16, "thorough": 16}),
     ]
